@@ -1,0 +1,272 @@
+//go:build verif
+
+package align
+
+// Contracts for property C14 (column statistics), second batch. Comments only;
+// compiled (to nothing) only under the build tag "verif". Shared vocabulary
+// (nrows, cell, wfa, upcnt, ucnt, excl, wildcard, up8, ...) is in zz_contracts_verif.go.
+
+// tables read by the functions below (declared for C06 / C10 elsewhere; declared again so that their immutability scan is part of the C14 run)
+//@ table iupacToInt C14
+//@ table stdaminoacid C14
+//@ table stdnucleotides C14
+
+// ---- Consensus: one row named "consensus" holding the per-site result of MaxCharStats ----
+
+// residue s of the consensus row: the most frequent case-folded character of column s among those not excluded
+// (ties to the lowest code); when every character present is excluded, the case-folded character of the first row
+//@ pure func c14b_cons(a *align, cons *align, s int, ig bool, in bool) bool = (forall k :: 0 <= k && k < 256 && ucnt(a, s, k) > 0 ==> excl(a, ig, in, k)) ? cell(cons, 0, s) == up8(old(cell(a, 0, s))) : (!excl(a, ig, in, cell(cons, 0, s)) && ucnt(a, s, cell(cons, 0, s)) > 0 && (forall k :: 0 <= k && k < 256 && !excl(a, ig, in, k) ==> ucnt(a, s, k) <= ucnt(a, s, cell(cons, 0, s)) && (ucnt(a, s, k) == ucnt(a, s, cell(cons, 0, s)) ==> cell(cons, 0, s) <= k)))
+
+//@ func (*align).Consensus
+//@   props C14 C19
+//@   requires wfa(a)
+//@   ensures cons != nil && fresh(cons) && wfa(cons) && cons.alphabet == a.alphabet && nrows(cons) == 1 && rowname(cons, 0) == "consensus"
+//@   ensures cons.length == (a.length < 0 ? 0 : a.length) && fresh(row(cons, 0)) && fresh(row(cons, 0).sequence)
+//@   ensures forall s :: 0 <= s && s < a.length ==> c14b_cons(a, cons, s, excludeGaps, excludeNs)
+//@   modifies nothing
+
+// ---- mutations relative to a reference sequence ----
+
+// two IUPAC nucleotide codes (bit sets over A,C,G,T) are compatible: identical, or they share a base
+//@ pure func c14b_compat(x int, y int) bool = x == y || (x & y) > 0
+// every residue of the first n positions of q is a character of the IUPAC table (after case folding)
+//@ pure func c14b_ntok(q *seq, n int) bool = forall k :: 0 <= k && k < n ==> has(iupacToInt, up8(q.sequence[k]))
+// position i of s is a mutation with respect to the reference r: s has neither a gap nor the wildcard (N/n for nucleotides, X/x otherwise) there, and the
+// residues are incompatible after case folding (nucleotides: the IUPAC sets are different and disjoint; otherwise: different letters).
+// Property statement: "IUPAC-compatible residues and N/X never count as substitutions ... mixed case".
+//@ pure func c14b_ismut(s *seq, r *seq, alphabet int, i int) bool = s.sequence[i] != '-' && up8(s.sequence[i]) != (alphabet == NUCLEOTIDS ? 'N' : 'X') && (alphabet == NUCLEOTIDS ? !c14b_compat(ntcode(s.sequence[i]), ntcode(r.sequence[i])) : up8(s.sequence[i]) != up8(r.sequence[i]))
+//@ pure func c14b_nmut(s *seq, r *seq, alphabet int, n int) int = (n <= 0 ? 0 : c14b_nmut(s, r, alphabet, n-1) + (c14b_ismut(s, r, alphabet, n-1) ? 1 : 0))
+
+//@ func (*seq).NumMutationsComparedToReferenceSequence
+//@   props C14 C19
+//@   requires s != nil && refseq != nil
+//@   ensures (err != nil) == (len(refseq.sequence) != len(s.sequence) || (alphabet == NUCLEOTIDS && !(c14b_ntok(refseq, len(s.sequence)) && c14b_ntok(s, len(s.sequence)))))
+//@   ensures err == nil ==> nummutations == c14b_nmut(s, refseq, alphabet, len(s.sequence))
+//@   ensures err == nil ==> 0 <= nummutations && nummutations <= len(s.sequence)
+//@   modifies nothing
+//@   loop 1
+//@     invariant err == nil && alphabet == NUCLEOTIDS && len(refseq.sequence) == len(s.sequence) && 0 <= i && i <= len(s.sequence) && len(refseqCode) == len(s.sequence) && fresh(refseqCode) && nummutations == 0
+//@     invariant forall k :: 0 <= k && k < i ==> has(iupacToInt, up8(refseq.sequence[k])) && refseqCode[k] == ntcode(refseq.sequence[k])
+//@     decreases len(s.sequence) - i
+//@   loop 2
+//@     invariant err == nil && len(refseq.sequence) == len(s.sequence) && 0 <= i && i <= len(s.sequence) && all == (alphabet == NUCLEOTIDS ? 'N' : 'X')
+//@     invariant alphabet == NUCLEOTIDS ==> len(refseqCode) == len(s.sequence) && c14b_ntok(refseq, len(s.sequence)) && c14b_ntok(s, i) && (forall k :: 0 <= k && k < len(s.sequence) ==> refseqCode[k] == ntcode(refseq.sequence[k]))
+//@     invariant nummutations == c14b_nmut(s, refseq, alphabet, i) && 0 <= nummutations && nummutations <= i
+//@     decreases len(s.sequence) - i
+
+// ---- character counts per sequence and per bag ----
+
+// number of positions k < n of the sequence q whose case-folded residue is x
+//@ pure func c14b_seqcnt(q *seq, x int, n int) int = (n <= 0 ? 0 : c14b_seqcnt(q, x, n-1) + (up8(q.sequence[n-1]) == x ? 1 : 0))
+// number of residues of the first r rows whose case-folded value is x
+//@ pure func c14b_bagcnt(sb *seqbag, x int, r int) int = (r <= 0 ? 0 : c14b_bagcnt(sb, x, r-1) + c14b_seqcnt(row(sb, r-1), x, rowlen(sb, r-1)))
+
+// CharStatsSeq: the map holds, for every byte value, the number of residues of row idx that case-fold to it (absent when 0); an index outside the rows is an error
+//@ func (*seqbag).CharStatsSeq
+//@   props C14 C19
+//@   requires sb != nil && rowsok(sb)
+//@   ensures (err != nil) == (idx < 0 || idx >= nrows(sb))
+//@   ensures outmap != nil && fresh(outmap)
+//@   ensures err == nil ==> forall x :: 0 <= x && x < 256 ==> outmap[x] == c14b_seqcnt(row(sb, idx), x, rowlen(sb, idx)) && has(outmap, x) == (c14b_seqcnt(row(sb, idx), x, rowlen(sb, idx)) > 0)
+//@   ensures err != nil ==> forall x :: 0 <= x && x < 256 ==> !has(outmap, x)
+//@   modifies nothing
+//@   loop 1
+//@     invariant err == nil && 0 <= idx && idx < nrows(sb) && outmap != nil && fresh(outmap) && sameslice(seq, row(sb, idx).sequence)
+//@     invariant forall x :: 0 <= x && x < 256 ==> outmap[x] == c14b_seqcnt(row(sb, idx), x, $i) && has(outmap, x) == (c14b_seqcnt(row(sb, idx), x, $i) > 0) && c14b_seqcnt(row(sb, idx), x, $i) >= 0
+//@     decreases rowlen(sb, idx) - $i
+
+// CharStats: for every character code x < 130 the map holds the number of residues of the whole bag that case-fold to x (absent when 0).
+// The function indexes a 130-entry table with the upper-cased residue: residues are required to be below 130 (as for Mask/MAJ; a larger byte panics: reported in DESIGN section 6)
+//@ func (*seqbag).CharStats
+//@   props C14 C19
+//@   requires sb != nil && rowsok(sb)
+//@   requires forall r, c :: 0 <= r && r < nrows(sb) && 0 <= c && c < rowlen(sb, r) ==> cell(sb, r, c) < 130
+//@   ensures chars != nil && fresh(chars)
+//@   ensures forall x :: 0 <= x && x < 130 ==> chars[x] == c14b_bagcnt(sb, x, nrows(sb)) && has(chars, x) == (c14b_bagcnt(sb, x, nrows(sb)) > 0)
+//@   ensures forall x :: 130 <= x && x < 256 ==> !has(chars, x)
+//@   modifies nothing
+//@   loop 1
+//@     modifies present[*]
+//@     invariant chars != nil && fresh(chars) && fresh(present) && len(present) == 130 && (forall x :: 0 <= x && x < 256 ==> !has(chars, x))
+//@     invariant forall x :: 0 <= x && x < 130 ==> present[x] == old(c14b_bagcnt(sb, x, $i)) && present[x] >= 0
+//@     decreases nrows(sb) - $i
+//@   loop 2
+//@     modifies present[*]
+//@     invariant chars != nil && fresh(chars) && fresh(present) && len(present) == 130 && seq == row(sb, $i1 - 1) && 0 <= $i1 - 1 && $i1 - 1 < nrows(sb)
+//@     invariant forall x :: 0 <= x && x < 130 ==> present[x] == old(c14b_bagcnt(sb, x, $i1 - 1)) + old(c14b_seqcnt(row(sb, $i1 - 1), x, $i)) && old(c14b_bagcnt(sb, x, $i1 - 1)) >= 0 && old(c14b_seqcnt(row(sb, $i1 - 1), x, $i)) >= 0
+//@     decreases rowlen(sb, $i1 - 1) - $i
+//@   loop 3
+//@     invariant chars != nil && fresh(chars) && len(present) == 130
+//@     invariant forall x :: 0 <= x && x < 130 ==> present[x] == old(c14b_bagcnt(sb, x, nrows(sb)))
+//@     invariant forall x :: 0 <= x && x < $i ==> chars[x] == present[x] && has(chars, x) == (present[x] > 0)
+//@     invariant forall x :: $i <= x && x < 256 ==> !has(chars, x)
+//@     decreases 130 - $i
+
+// ---- Pssm ----
+// Float model: extended reals (NaN and infinities exact, finite values exact reals, rounding ignored).
+//@ pure func c14b_K(a *align) int = (a.alphabet == AMINOACIDS ? 20 : 4)
+// position of the character x in the alphabet of the alignment (the 20 amino acids in the order ARNDCQEGHILKMFPSTWYV, or ACGT for every other alphabet); -1 for any other character
+//@ pure func c14b_pos(a *align, x int) int = (a.alphabet == AMINOACIDS ? (x == 'A' ? 0 : (x == 'R' ? 1 : (x == 'N' ? 2 : (x == 'D' ? 3 : (x == 'C' ? 4 : (x == 'Q' ? 5 : (x == 'E' ? 6 : (x == 'G' ? 7 : (x == 'H' ? 8 : (x == 'I' ? 9 : (x == 'L' ? 10 : (x == 'K' ? 11 : (x == 'M' ? 12 : (x == 'F' ? 13 : (x == 'P' ? 14 : (x == 'S' ? 15 : (x == 'T' ? 16 : (x == 'W' ? 17 : (x == 'Y' ? 18 : (x == 'V' ? 19 : (-1))))))))))))))))))))) : (x == 'A' ? 0 : (x == 'C' ? 1 : (x == 'G' ? 2 : (x == 'T' ? 3 : (-1))))))
+// x is one of the first n letters of the alphabet
+//@ pure func c14b_isl(a *align, n int, x int) bool = 0 <= c14b_pos(a, x) && c14b_pos(a, x) < n
+// j-th letter of the alphabet, read from the tables of the package (the loops prove that c14b_pos is the inverse)
+//@ ground func c14b_letter(a *align, j int) int = (a.alphabet == AMINOACIDS ? stdaminoacid[j] : stdnucleotides[j])
+// shape of the matrix: one row of L fresh cells per key, rows pairwise disjoint
+//@ pure func c14b_rows(a *align, pssm map[uint8][]float64) bool = forall x :: has(pssm, x) ==> len(pssm[x]) == a.length && fresh(pssm[x]) && allocated(pssm[x])
+//@ pure func c14b_disj(pssm map[uint8][]float64) bool = forall x, y :: has(pssm, x) && has(pssm, y) && x != y ==> base(pssm[x]) != base(pssm[y])
+// number of residues of the whole alignment that case-fold to one of the first j letters
+//@ pure func c14b_total(a *align, j int) int = (j <= 0 ? 0 : c14b_total(a, j-1) + c14b_bagcnt(a, c14b_letter(a, j-1), nrows(a)))
+// denominator of the frequency normalisations: number of sequences plus one pseudo-count per letter
+//@ pure func c14b_den(a *align, pc real) real = real(nrows(a)) + (a.alphabet == AMINOACIDS ? 20.0 * pc : 4.0 * pc)
+// the constant 0, kept as a function symbol of (x, s): gives the quantified facts "cell (x, s) is still zero" a trigger
+//@ ground func c14b_zero(x int, s int) real = 0.0
+// normalisation factor of letter x: none; 1/den (frequency); (1/den) / (1/K) (uniform background); (1/den) / (share of x among the letters of the whole alignment) (data background); 1/n (logo)
+//@ ground func c14b_nf(a *align, norm int, pc real, x int) real = (norm == PSSM_NORM_NONE ? 1.0 : (norm == PSSM_NORM_FREQ ? 1.0 / c14b_den(a, pc) : (norm == PSSM_NORM_UNIF ? 1.0 / c14b_den(a, pc) / (1.0 / real(c14b_K(a))) : (norm == PSSM_NORM_DATA ? 1.0 / c14b_den(a, pc) / (real(c14b_bagcnt(a, x, nrows(a))) / real(c14b_total(a, c14b_K(a)))) : 1.0 / real(nrows(a))))))
+// the product c * n (a function symbol whose definition is instantiated at ground terms only: keeps non-linear arithmetic out of the quantified facts)
+//@ ground func c14b_mul(c real, n real) real = c * n
+// count of letter x at site s (case-folded), plus the pseudo-count (a function symbol instantiated at ground terms: the products below then have atomic factors)
+//@ ground func c14b_cnt(a *align, pc real, s int, x int) real = real(upcnt(a, s, x, nrows(a))) + (pc > 0.0 ? pc : 0.0)
+
+// p is the binary logarithm of the real w as the extended-real model computes it: ln(w)/ln(2) for w > 0, -Inf for w == 0, NaN for w < 0
+//@ pure func c14b_islog2(p float64, w real) bool = (w > 0.0 ==> isfin(p) && fin(p) == ln(w) / ln(2.0)) && (w == 0.0 ==> isninf(p)) && (w < 0.0 ==> isnan(p))
+
+//@ func (*align).Pssm
+//@   props C14 C19
+//@   float xreal
+//@   requires wfa(a) && isfin(pseudocount) && fin(pseudocount) >= 0.0
+//@   requires normalization == PSSM_NORM_DATA ==> forall r, c :: 0 <= r && r < nrows(a) && 0 <= c && c < a.length ==> cell(a, r, c) < 130
+// errors: no sequence; unknown normalisation; DATA normalisation when some letter of the alphabet does not occur in the alignment
+//@   ensures (err != nil) == (nrows(a) == 0 || normalization < 0 || normalization > 4 || (normalization == PSSM_NORM_DATA && !(forall x :: c14b_isl(a, c14b_K(a), x) ==> c14b_bagcnt(a, x, nrows(a)) > 0)))
+//@   ensures pssm != nil && fresh(pssm)
+// one row of L cells per letter of the alphabet, and no other key
+//@   ensures err == nil ==> (forall x :: has(pssm, x) == c14b_isl(a, c14b_K(a), x)) && c14b_rows(a, pssm) && c14b_disj(pssm)
+// every entry equals its definition: (case-folded count + pseudo-count) * normalisation factor (c14b_mul is the product), and its binary logarithm when asked (LOGO: see report, not covered)
+//@   ensures err == nil && normalization != PSSM_NORM_LOGO && !log ==> forall x, s :: has(pssm, x) && 0 <= s && s < a.length ==> isfin(pssm[x][s]) && fin(pssm[x][s]) == c14b_mul(c14b_cnt(a, fin(pseudocount), s, x), c14b_nf(a, normalization, fin(pseudocount), x))
+//@   ensures err == nil && normalization != PSSM_NORM_LOGO && log ==> forall x, s :: has(pssm, x) && 0 <= s && s < a.length ==> c14b_islog2(pssm[x][s], c14b_mul(c14b_cnt(a, fin(pseudocount), s, x), c14b_nf(a, normalization, fin(pseudocount), x)))
+//@   modifies nothing
+//@   loop 1
+//@     invariant err == nil && pssm != nil && fresh(pssm) && a.length >= 0 && nrows(a) >= 1 && len(alphabet) == c14b_K(a) && c14b_rows(a, pssm) && c14b_disj(pssm) && len(pssm) == $i
+//@     invariant forall x :: has(pssm, x) == c14b_isl(a, $i, x)
+//@     invariant forall x, s :: has(pssm, x) && 0 <= s && s < a.length ==> isfin(pssm[x][s]) && fin(pssm[x][s]) == c14b_zero(x, s)
+//@     decreases len(alphabet) - $i
+//@   loop 2
+//@     invariant err == nil && normfactors != nil && fresh(normfactors) && normalization == PSSM_NORM_NONE
+//@     invariant forall x :: c14b_isl(a, $i, x) ==> has(normfactors, x)
+//@     invariant forall x :: has(normfactors, x) ==> isfin(normfactors[x]) && fin(normfactors[x]) == 1.0
+//@     decreases len(alphabet) - $i
+//@   loop 3
+//@     invariant err == nil && normfactors != nil && fresh(normfactors) && normalization == PSSM_NORM_UNIF
+//@     invariant forall x :: c14b_isl(a, $i, x) ==> has(normfactors, x)
+//@     invariant forall x :: has(normfactors, x) ==> isfin(normfactors[x]) && fin(normfactors[x]) == 1.0 / c14b_den(a, fin(pseudocount)) / (1.0 / real(c14b_K(a)))
+//@     decreases len(alphabet) - $i
+//@   loop 4
+//@     invariant err == nil && normfactors != nil && fresh(normfactors) && normalization == PSSM_NORM_FREQ
+//@     invariant forall x :: c14b_isl(a, $i, x) ==> has(normfactors, x)
+//@     invariant forall x :: has(normfactors, x) ==> isfin(normfactors[x]) && fin(normfactors[x]) == 1.0 / c14b_den(a, fin(pseudocount))
+//@     decreases len(alphabet) - $i
+//@   loop 5
+//@     invariant err == nil && normfactors != nil && fresh(normfactors) && normalization == PSSM_NORM_LOGO
+//@     invariant forall x :: c14b_isl(a, $i, x) ==> has(normfactors, x)
+//@     invariant forall x :: has(normfactors, x) ==> isfin(normfactors[x]) && fin(normfactors[x]) == 1.0 / real(nrows(a))
+//@     decreases len(alphabet) - $i
+//@   loop 6
+//@     invariant err == nil && normfactors != nil && fresh(normfactors) && normalization == PSSM_NORM_DATA && stats != nil
+//@     invariant forall x :: !has(normfactors, x)
+//@     invariant forall x :: c14b_isl(a, $i, x) ==> c14b_bagcnt(a, x, nrows(a)) > 0
+//@     invariant isfin(total) && fin(total) == real(c14b_total(a, $i)) && c14b_total(a, $i) >= $i
+//@     decreases len(alphabet) - $i
+//@   loop 7
+//@     invariant err == nil && normfactors != nil && fresh(normfactors) && normalization == PSSM_NORM_DATA && stats != nil
+//@     invariant (forall x :: c14b_isl(a, c14b_K(a), x) ==> c14b_bagcnt(a, x, nrows(a)) > 0) && isfin(total) && fin(total) == real(c14b_total(a, c14b_K(a))) && c14b_total(a, c14b_K(a)) >= c14b_K(a)
+//@     invariant forall x :: c14b_isl(a, $i, x) ==> has(normfactors, x)
+//@     invariant forall x :: has(normfactors, x) ==> isfin(normfactors[x]) && fin(normfactors[x]) == 1.0 / c14b_den(a, fin(pseudocount)) / (real(c14b_bagcnt(a, x, nrows(a))) / real(c14b_total(a, c14b_K(a)))) && c14b_bagcnt(a, x, nrows(a)) > 0
+//@     decreases len(alphabet) - $i
+//@   loop 8
+//@     invariant 0 <= site && site <= a.length && err == nil && pssm != nil && fresh(pssm) && normfactors != nil && a.length >= 0 && nrows(a) >= 1 && c14b_rows(a, pssm) && c14b_disj(pssm) && len(pssm) == c14b_K(a) && (forall x :: has(pssm, x) ==> c14b_isl(a, c14b_K(a), x)) && (forall x :: c14b_isl(a, c14b_K(a), x) ==> has(pssm, x)) && (forall x :: has(pssm, x) ==> has(normfactors, x) && isfin(normfactors[x]) && fin(normfactors[x]) == c14b_nf(a, normalization, fin(pseudocount), x))
+//@     invariant forall x, s :: has(pssm, x) && 0 <= s && s < a.length ==> isfin(pssm[x][s]) && fin(pssm[x][s]) == (s < site ? real(ucnt(a, s, x)) : c14b_zero(x, s))
+//@     decreases a.length - site
+//@   loop 9
+//@     invariant 0 <= site && site < a.length && 0 <= seq && seq <= nrows(a) && err == nil && pssm != nil && fresh(pssm) && normfactors != nil && a.length >= 0 && nrows(a) >= 1 && c14b_rows(a, pssm) && c14b_disj(pssm) && len(pssm) == c14b_K(a) && (forall x :: has(pssm, x) ==> c14b_isl(a, c14b_K(a), x)) && (forall x :: c14b_isl(a, c14b_K(a), x) ==> has(pssm, x)) && (forall x :: has(pssm, x) ==> has(normfactors, x) && isfin(normfactors[x]) && fin(normfactors[x]) == c14b_nf(a, normalization, fin(pseudocount), x))
+//@     invariant forall x, s :: has(pssm, x) && 0 <= s && s < a.length && s != site ==> isfin(pssm[x][s]) && fin(pssm[x][s]) == (s < site ? real(ucnt(a, s, x)) : c14b_zero(x, s))
+//@     invariant forall x :: has(pssm, x) ==> isfin(pssm[x][site]) && fin(pssm[x][site]) == real(old(upcnt(a, site, x, seq))) && c14b_zero(x, site) == 0.0
+//@     decreases nrows(a) - seq
+//@   loop 10
+//@     invariant err == nil && pssm != nil && fresh(pssm) && normfactors != nil && a.length >= 0 && nrows(a) >= 1 && c14b_rows(a, pssm) && c14b_disj(pssm) && len(pssm) == c14b_K(a) && (forall x :: has(pssm, x) ==> c14b_isl(a, c14b_K(a), x)) && (forall x :: c14b_isl(a, c14b_K(a), x) ==> has(pssm, x)) && (forall x :: has(pssm, x) ==> has(normfactors, x) && isfin(normfactors[x]) && fin(normfactors[x]) == c14b_nf(a, normalization, fin(pseudocount), x)) && fin(pseudocount) > 0.0
+//@     invariant forall x, s :: has(pssm, x) && 0 <= s && s < a.length ==> isfin(pssm[x][s]) && fin(pssm[x][s]) == real(ucnt(a, s, x)) + (visited(x) ? fin(pseudocount) : 0.0)
+//@   loop 11
+//@     invariant err == nil && pssm != nil && fresh(pssm) && normfactors != nil && a.length >= 0 && nrows(a) >= 1 && c14b_rows(a, pssm) && c14b_disj(pssm) && len(pssm) == c14b_K(a) && (forall x :: has(pssm, x) ==> c14b_isl(a, c14b_K(a), x)) && (forall x :: c14b_isl(a, c14b_K(a), x) ==> has(pssm, x)) && (forall x :: has(pssm, x) ==> has(normfactors, x) && isfin(normfactors[x]) && fin(normfactors[x]) == c14b_nf(a, normalization, fin(pseudocount), x)) && fin(pseudocount) > 0.0 && len(v) == a.length && (exists kk :: has(pssm, kk) && visited10(kk) && sameslice(v, pssm[kk]))
+//@     invariant forall x, s :: has(pssm, x) && 0 <= s && s < a.length ==> isfin(pssm[x][s]) && fin(pssm[x][s]) == real(ucnt(a, s, x)) + (visited10(x) && !(base(pssm[x]) == base(v) && s >= $i) ? fin(pseudocount) : 0.0)
+//@     decreases len(v) - $i
+//@   loop 12
+//@     invariant err == nil && pssm != nil && fresh(pssm) && normfactors != nil && a.length >= 0 && nrows(a) >= 1 && c14b_rows(a, pssm) && c14b_disj(pssm) && len(pssm) == c14b_K(a) && (forall x :: has(pssm, x) ==> c14b_isl(a, c14b_K(a), x)) && (forall x :: c14b_isl(a, c14b_K(a), x) ==> has(pssm, x)) && (forall x :: has(pssm, x) ==> has(normfactors, x) && isfin(normfactors[x]) && fin(normfactors[x]) == c14b_nf(a, normalization, fin(pseudocount), x)) && len(entropy) == a.length && fresh(entropy) && (forall x :: has(pssm, x) ==> base(pssm[x]) != base(entropy))
+//@     invariant forall x, s :: has(pssm, x) && 0 <= s && s < a.length ==> isfin(pssm[x][s]) && fin(pssm[x][s]) == (visited(x) ? c14b_mul(c14b_cnt(a, fin(pseudocount), s, x), fin(normfactors[x])) : c14b_cnt(a, fin(pseudocount), s, x))
+//@   loop 13
+//@     invariant err == nil && pssm != nil && fresh(pssm) && normfactors != nil && a.length >= 0 && nrows(a) >= 1 && c14b_rows(a, pssm) && c14b_disj(pssm) && len(pssm) == c14b_K(a) && (forall x :: has(pssm, x) ==> c14b_isl(a, c14b_K(a), x)) && (forall x :: c14b_isl(a, c14b_K(a), x) ==> has(pssm, x)) && (forall x :: has(pssm, x) ==> has(normfactors, x) && isfin(normfactors[x]) && fin(normfactors[x]) == c14b_nf(a, normalization, fin(pseudocount), x)) && len(entropy) == a.length && fresh(entropy) && (forall x :: has(pssm, x) ==> base(pssm[x]) != base(entropy)) && has(pssm, k) && visited12(k) && sameslice(v, pssm[k])
+//@     invariant forall x, s :: has(pssm, x) && 0 <= s && s < a.length ==> isfin(pssm[x][s]) && fin(pssm[x][s]) == (visited12(x) && !(x == k && s >= $i) ? c14b_mul(c14b_cnt(a, fin(pseudocount), s, x), fin(normfactors[x])) : c14b_cnt(a, fin(pseudocount), s, x))
+//@     decreases len(v) - $i
+//@   loop 14
+//@     invariant err == nil && pssm != nil && fresh(pssm) && normfactors != nil && a.length >= 0 && nrows(a) >= 1 && c14b_rows(a, pssm) && c14b_disj(pssm) && len(pssm) == c14b_K(a) && (forall x :: has(pssm, x) ==> c14b_isl(a, c14b_K(a), x)) && (forall x :: c14b_isl(a, c14b_K(a), x) ==> has(pssm, x)) && (forall x :: has(pssm, x) ==> has(normfactors, x) && isfin(normfactors[x]) && fin(normfactors[x]) == c14b_nf(a, normalization, fin(pseudocount), x)) && len(entropy) == a.length && fresh(entropy) && (forall x :: has(pssm, x) ==> base(pssm[x]) != base(entropy))
+//@   loop 15
+//@     invariant err == nil && pssm != nil && fresh(pssm) && normfactors != nil && a.length >= 0 && nrows(a) >= 1 && c14b_rows(a, pssm) && c14b_disj(pssm) && len(pssm) == c14b_K(a) && (forall x :: has(pssm, x) ==> c14b_isl(a, c14b_K(a), x)) && (forall x :: c14b_isl(a, c14b_K(a), x) ==> has(pssm, x)) && (forall x :: has(pssm, x) ==> has(normfactors, x) && isfin(normfactors[x]) && fin(normfactors[x]) == c14b_nf(a, normalization, fin(pseudocount), x)) && len(entropy) == a.length && fresh(entropy) && (forall x :: has(pssm, x) ==> base(pssm[x]) != base(entropy)) && len(v) == a.length && fresh(v)
+//@     decreases len(v) - $i
+//@   loop 16
+//@     invariant err == nil && pssm != nil && fresh(pssm) && normfactors != nil && a.length >= 0 && nrows(a) >= 1 && c14b_rows(a, pssm) && c14b_disj(pssm) && len(pssm) == c14b_K(a) && (forall x :: has(pssm, x) ==> c14b_isl(a, c14b_K(a), x)) && (forall x :: c14b_isl(a, c14b_K(a), x) ==> has(pssm, x)) && (forall x :: has(pssm, x) ==> has(normfactors, x) && isfin(normfactors[x]) && fin(normfactors[x]) == c14b_nf(a, normalization, fin(pseudocount), x)) && log && normalization != PSSM_NORM_LOGO
+//@     invariant forall x, s :: has(pssm, x) && 0 <= s && s < a.length && !visited(x) ==> isfin(pssm[x][s]) && fin(pssm[x][s]) == c14b_mul(c14b_cnt(a, fin(pseudocount), s, x), fin(normfactors[x]))
+//@     invariant forall x, s :: has(pssm, x) && 0 <= s && s < a.length && visited(x) ==> c14b_islog2(pssm[x][s], c14b_mul(c14b_cnt(a, fin(pseudocount), s, x), fin(normfactors[x])))
+//@   loop 17
+//@     invariant err == nil && pssm != nil && fresh(pssm) && normfactors != nil && a.length >= 0 && nrows(a) >= 1 && c14b_rows(a, pssm) && c14b_disj(pssm) && len(pssm) == c14b_K(a) && (forall x :: has(pssm, x) ==> c14b_isl(a, c14b_K(a), x)) && (forall x :: c14b_isl(a, c14b_K(a), x) ==> has(pssm, x)) && (forall x :: has(pssm, x) ==> has(normfactors, x) && isfin(normfactors[x]) && fin(normfactors[x]) == c14b_nf(a, normalization, fin(pseudocount), x)) && log && normalization != PSSM_NORM_LOGO && len(v) == a.length && (exists kk :: has(pssm, kk) && visited16(kk) && sameslice(v, pssm[kk]))
+//@     invariant forall x, s :: has(pssm, x) && 0 <= s && s < a.length && !(visited16(x) && !(base(pssm[x]) == base(v) && s >= $i)) ==> isfin(pssm[x][s]) && fin(pssm[x][s]) == c14b_mul(c14b_cnt(a, fin(pseudocount), s, x), fin(normfactors[x]))
+//@     invariant forall x, s :: has(pssm, x) && 0 <= s && s < a.length && visited16(x) && !(base(pssm[x]) == base(v) && s >= $i) ==> c14b_islog2(pssm[x][s], c14b_mul(c14b_cnt(a, fin(pseudocount), s, x), fin(normfactors[x])))
+//@     decreases len(v) - $i
+
+// ---- NbVariableSites ----
+// a residue that counts: not a gap, not '.', not '*'
+//@ pure func c14b_real(c int) bool = c != '-' && c != '.' && c != '*'
+// first row below n that holds a counting residue in column s (-1: none)
+//@ pure func c14b_first(a *align, s int, n int) int = (n <= 0 ? -1 : (c14b_first(a, s, n-1) >= 0 ? c14b_first(a, s, n-1) : (c14b_real(cell(a, n-1, s)) ? n-1 : -1)))
+// column s is variable: two rows hold different counting residues
+//@ pure func c14b_isvar(a *align, s int) bool = exists r1, r2 :: 0 <= r1 && r1 < r2 && r2 < nrows(a) && c14b_real(cell(a, r1, s)) && c14b_real(cell(a, r2, s)) && cell(a, r1, s) != cell(a, r2, s)
+//@ pure func c14b_nvar(a *align, n int) int = (n <= 0 ? 0 : c14b_nvar(a, n-1) + (c14b_isvar(a, n-1) ? 1 : 0))
+
+//@ func (*align).NbVariableSites
+//@   props C14 C19
+//@   requires wfa(a)
+//@   ensures result == c14b_nvar(a, a.length) && 0 <= result && result <= max(a.length, 0)
+//@   modifies nothing
+//@   loop 1
+//@     invariant 0 <= site && site <= max(a.length, 0) && nbinfo == old(c14b_nvar(a, site)) && 0 <= nbinfo && nbinfo <= site
+//@     decreases a.length - site
+//@   loop 2
+//@     invariant 0 <= site && site < a.length && charmap != nil && fresh(charmap) && !variable && nbinfo == old(c14b_nvar(a, site)) && 0 <= nbinfo && nbinfo <= site
+//@     invariant -1 <= old(c14b_first(a, site, $i)) && old(c14b_first(a, site, $i)) < $i
+//@     invariant old(c14b_first(a, site, $i)) == -1 ==> len(charmap) == 0 && (forall k :: !has(charmap, k))
+//@     invariant old(c14b_first(a, site, $i)) >= 0 ==> len(charmap) == 1 && c14b_real(old(cell(a, c14b_first(a, site, $i), site))) && has(charmap, old(cell(a, c14b_first(a, site, $i), site))) && (forall k :: has(charmap, k) ==> k == old(cell(a, c14b_first(a, site, $i), site)))
+//@     invariant forall r :: 0 <= r && r < $i && c14b_real(old(cell(a, r, site))) ==> old(c14b_first(a, site, $i)) >= 0 && old(cell(a, r, site)) == old(cell(a, c14b_first(a, site, $i), site))
+//@     decreases nrows(a) - $i
+
+// ---- AvgAllelesPerSite ----
+// the residue k occurs in column s among the first n rows
+//@ opaque func c14b_seen(a *align, s int, n int, k int) bool = exists r :: 0 <= r && r < n && cell(a, r, s) == k
+// number of distinct counting residues (not gap, '.', '*'; case-sensitive) of column s among the first n rows: a row counts when its residue did not occur above it
+//@ pure func c14b_ndist(a *align, s int, n int) int = (n <= 0 ? 0 : c14b_ndist(a, s, n-1) + (c14b_real(cell(a, n-1, s)) && !c14b_seen(a, s, n-1, cell(a, n-1, s)) ? 1 : 0))
+// total number of alleles of the first m columns, and number of those columns that hold at least one counting residue
+//@ pure func c14b_sumdist(a *align, m int) int = (m <= 0 ? 0 : c14b_sumdist(a, m-1) + c14b_ndist(a, m-1, nrows(a)))
+//@ pure func c14b_nsites(a *align, m int) int = (m <= 0 ? 0 : c14b_nsites(a, m-1) + (c14b_first(a, m-1, nrows(a)) >= 0 ? 1 : 0))
+
+// result = (total number of alleles) / (number of columns that are not only gaps); NaN (0/0) when no column holds a counting residue
+//@ func (*align).AvgAllelesPerSite
+//@   props C14 C19
+//@   float xreal
+//@   requires wfa(a)
+//@   ensures c14b_nsites(a, a.length) > 0 ==> isfin(result) && fin(result) == real(c14b_sumdist(a, a.length)) / real(c14b_nsites(a, a.length))
+//@   ensures c14b_nsites(a, a.length) <= 0 ==> isnan(result)
+//@   modifies nothing
+//@   loop 1
+//@     invariant 0 <= site && site <= max(a.length, 0) && nballeles == old(c14b_sumdist(a, site)) && nbsites == old(c14b_nsites(a, site)) && 0 <= nbsites && 0 <= nballeles && (nbsites == 0 ==> nballeles == 0)
+//@     decreases a.length - site
+//@   loop 2
+//@     invariant 0 <= site && site < a.length && 0 <= seq && seq <= nrows(a) && alleles != nil && fresh(alleles) && nballeles == old(c14b_sumdist(a, site)) && nbsites == old(c14b_nsites(a, site)) && 0 <= nbsites && 0 <= nballeles && (nbsites == 0 ==> nballeles == 0)
+//@     invariant len(alleles) == old(c14b_ndist(a, site, seq)) && 0 <= len(alleles) && (old(c14b_first(a, site, seq)) == -1 ==> len(alleles) == 0)
+//@     invariant forall k :: has(alleles, k) == (c14b_real(k) && old(c14b_seen(a, site, seq, k)))
+//@     invariant onlygap == (old(c14b_first(a, site, seq)) == -1) && -1 <= old(c14b_first(a, site, seq)) && old(c14b_first(a, site, seq)) < seq
+//@     decreases nrows(a) - seq
